@@ -42,7 +42,9 @@ ASSUMPTIONS = [
   'TLC exhaustive only within the stated constants (members, sizes, outstanding requests, scaled averages)',
 ]
 RULE = {'C06': 'seeded traffic-level histories (steady phases of k outstanding requests with churn for >= 12 EMA windows, '
-               'level changes, member failures, joins/leaves, jitter rounds, delayed/failed opens, fine-grained steps) over '
+               'level changes, member failures, joins/leaves, jitter rounds, delayed/failed opens, fine-grained steps; every 6th script a rolling restart: leaves of the '
+               'active member and of its still-connecting replacement with opens held pending, then demand; every 6th a jitter '
+               'round overlapping membership changes) over '
                'configurations min_size 1..3, max_size 1..5, members 1..6, bands (0.5,2) (1,4) (1,3); non-trivial = the '
                'active size changed at least once at an adjust sample or a steady phase of >= 10 windows was evaluated; '
                'distinct by (configuration, sequence of size changes with their causes)'}
@@ -836,6 +838,9 @@ def models(prop, tier):
          what='3 members static, min 1 max 2, band (0.5,2), <=2 outstanding, jitter rounds, every open/callback interleaving'),
     dict(module='Aperture', cfg='Aperture_q_dyn.cfg', coverage=True, may_be_unused=['JitterFire'], workers=8,
          what='3 endpoints, 2 initial, joins/leaves/channel flips/failing opens (2 env events), 1 outstanding'),
+    dict(module='Aperture', cfg='Aperture_q_roll.cfg', workers=8,
+         what='3 members all initial, min 1 max 2, 2 env events (leave of the active member, leave / failure / close of '
+              'the still-connecting replacement): never empty while idle members remain; request at an empty aperture'),
     dict(module='Aperture', cfg='Aperture_q_steady1.cfg', workers=4,
          what='steady traffic K=3 (put-then-get churn), band (0.5,2): <>[](InBand \\/ Pinned) under WF, every initial size/average/closed subset'),
   ]
